@@ -2,7 +2,7 @@
 import _dbprop, dbcheck
 PROP = "C09"
 def run(tier, seed):
-    return _dbprop.run(PROP, tier, seed, [('reopen', 16, 250), ('ddl', 6, 60)],
+    return _dbprop.run(PROP, tier, seed, [('reopen', 16, 250), ('ddl', 6, 60), ('alter', 6, 40)],
         ['reopen = close (Drop flushes) + Database::open with configuration values drawn at random; the specification has no configuration and no volatile state: a reopen only ends the open transactions', 'histories stay in the domain where the catalog fits one page (16 KiB+ pages at creation): finding MetaTableSplitCorruptsCatalog'],
         'histories with many rolled-back transactions, flushes, vacuum, new tables, split by reopen at random points; after every reopen all tables are read back, a fresh row is inserted into each and read back; reopens counted', mc=None, nontrivial_key='reopens')
 def replay(path, seed):
